@@ -728,13 +728,16 @@ int main(int argc, char **argv)
 			ext2fs_extent_free(h);
 			if (!e && oldp && oldp != p)
 				ext2fs_block_alloc_stats2(fs, oldp, -1);
-			if (!e && (!oldp) != (!p)) {
+			if (!e) {
 				struct ext2_inode in;
 				if (!ext2fs_read_inode(fs, ino[f], &in)) {
-					if (p)
+					if (p && !oldp)
 						ext2fs_iblk_add_blocks(fs, &in, 1);
-					else
+					else if (!p && oldp)
 						ext2fs_iblk_sub_blocks(fs, &in, 1);
+					/* a caller that maps a block also keeps i_size behind it */
+					if (p && EXT2_I_SIZE(&in) < (l + 1) * fs->blocksize)
+						ext2fs_inode_size_set(fs, &in, (l + 1) * fs->blocksize);
 					ext2fs_write_inode(fs, ino[f], &in);
 				}
 			}
